@@ -66,7 +66,12 @@ def render_struct(d):
         cattrs.append('rename_all = %s' % rust_str(d["ra"]))
     if d["cdefault"]:
         cattrs.append("default")
-    out = ["#[derive(Serialize, Deserialize, Schema, Default)]"]
+    proxy = d.get("proxy", "none")
+    if proxy != "none":
+        cattrs.append('into = "Out"')
+        if proxy == "both":
+            cattrs.append('from = "In"')
+    out = ["#[derive(Serialize, Deserialize, Schema, Default%s)]" % (", Clone" if proxy != "none" else "")]
     out += attr_lines(cattrs, did)
     out.append("pub struct T {")
     inits = []
@@ -95,6 +100,13 @@ def render_struct(d):
         out.append("    %spub %s: %s," % ("".join(x + " " for x in attr_lines(a, did, len(inits))), name, base))
         inits.append("%s: %s" % (name, val))
     out.append("}")
+    if proxy != "none":
+        f0 = ident(S(d["fields"][0]["name"]))
+        out.append("#[derive(Serialize, Deserialize, Schema, Default, Clone)] pub struct Out { pub out_a: String }")
+        out.append("impl From<T> for Out { fn from(t: T) -> Out { Out { out_a: t.%s } } }" % f0)
+        if proxy == "both":
+            out.append("#[derive(Serialize, Deserialize, Schema, Default, Clone)] pub struct In { pub in_b: i32, pub in_c: i32 }")
+            out.append("impl From<In> for T { fn from(i: In) -> T { T { %s: (i.in_b + i.in_c).to_string() } } }" % f0)
     out.append("fn mk(some: bool) -> T { let _ = some; T { %s } }" % ", ".join(inits))
     out.append("fn samples() -> Vec<(i64, bool, Result<Value, String>)> { vec![(1, true, ser(&mk(true))), (1, false, ser(&mk(false)))] }")
     out.append("fn variant(_t: &T) -> i64 { 1 }")
